@@ -126,18 +126,22 @@ Definition split_path_info_f (p : text) : list text :=
 (* decode_path_info on a str whose characters may exceed latin-1 *)
 Definition latin1 (s : text) : bool := forallb (fun ch => ch <? 256) s.
 
-(* traversal_path_info(request.path_info) as static_view calls it: WebOb has
-   already decoded PATH_INFO, traversal_path_info decodes once more *)
+(* what static_view makes of request.path_info (use_subpath=False).  WebOb has
+   already decoded PATH_INFO (UnicodeDecodeError when it cannot); the function
+   applied to the text is a regenerated fact: traversal_path_info decodes once
+   more (latin-1, then UTF-8), split_path_info only splits *)
 Definition view_tuple (pi : text) : sum resp (list text) :=
   match decode pi with
   | None => Datatypes.inl (RExc 2)
   | Some s =>
-      if latin1 s then
-        match decode s with
-        | None => Datatypes.inl (RExc 1)
-        | Some u => Datatypes.inr (split_path_info_f u)
-        end
-      else Datatypes.inl (RExc 3)
+      if view_decodes_again then
+        if latin1 s then
+          match decode s with
+          | None => Datatypes.inl (RExc 1)
+          | Some u => Datatypes.inr (split_path_info_f u)
+          end
+        else Datatypes.inl (RExc 3)
+      else Datatypes.inr (split_path_info_f s)
   end.
 
 (* ------------------------------------------------------------ urldispatch *)
